@@ -314,6 +314,9 @@ type Node struct {
 	Accepted    []AcceptResult
 	UpdateAcks  []UpdateAck
 	ProposalsIn int
+	// PropDeadline is the deadline (simulated time) of the context with which
+	// the node answered the latest incoming proposal.
+	PropDeadline time.Duration
 	UpdatesIn   int
 	// OnAdjEvent is called for every adjudicator event relayed by Channel.Watch.
 	OnAdjEvent func(ch *client.Channel, e channel.AdjudicatorEvent)
@@ -403,6 +406,13 @@ func (w *World) addNode(name string, accIdx int, pr persistence.PersistRestorer,
 }
 
 // Counts returns how often the proposal and update handlers ran.
+// LastPropDeadline returns PropDeadline.
+func (n *Node) LastPropDeadline() time.Duration {
+	n.mu.Lock()
+	defer n.mu.Unlock()
+	return n.PropDeadline
+}
+
 func (n *Node) Counts() (proposals, updates int) {
 	n.mu.Lock()
 	defer n.mu.Unlock()
@@ -495,6 +505,11 @@ func (n *Node) handleProposal(p client.ChannelProposal, r *client.ProposalRespon
 		time.Sleep(react + n.W.S.Delay("handler:"+n.Name+":proposal:"+pname, 0, 30*time.Microsecond))
 		ctx, cancel := n.Ctx()
 		defer cancel()
+		if dl, ok := ctx.Deadline(); ok {
+			n.mu.Lock()
+			n.PropDeadline = dl.Sub(n.W.S.Epoch())
+			n.mu.Unlock()
+		}
 		if !accept {
 			err := r.Reject(ctx, "policy")
 			n.W.S.Event(n.Name, "proposal:reject", fmt.Sprintf("%s err=%v", pname, err))
